@@ -166,7 +166,7 @@ class Spec:
             ops += [['M', 'add_edge'], ['M', 'add_interaction', 'ok'],
                     ['M', 'add_or_replace', 0], ['M', 'add_or_replace', 1],
                     ['M', 'remove_interaction']]
-        ops += [['M', 'add_interaction', 'absent']]
+        ops += [['M', 'add_interaction', 'absent'], ['M', 'add_or_replace', 'absent']]
         ops += [['M', 'merge', 'D1'], ['M', 'merge', 'D2'], ['M', 'merge_block'],
                 ['M', 'merge_all'], ['M', 'merge_chains']]
         c = world['model']['C']
@@ -176,6 +176,7 @@ class Spec:
                 ops += [['C', 'remove_node', 'min'], ['C', 'merge', 'D1']]
             if len(c.nodes) >= 2:
                 ops += [['C', 'add_interaction', 'ok'], ['C', 'remove_interaction'], ['C', 'add_or_replace', 0]]
+            ops += [['C', 'add_or_replace', 'absent']]
         return ops
 
     def interesting(self, world):
@@ -259,6 +260,10 @@ class Spec:
                 atoms = ((min(model.nodes) if model.nodes else 998), 999)
                 expect_error = True
                 call = lambda: mol.add_interaction('bonds', atoms, ['1', '0.25'])
+        elif name == 'add_or_replace' and op[2] == 'absent':
+            atoms = ((min(model.nodes) if model.nodes else 998), 999)
+            expect_error = True
+            call = lambda: mol.add_or_replace_interaction('bonds', atoms, ['1', '0.25'])
         elif name == 'add_or_replace':
             lo, hi = keys_minmax()
             atoms, ver = (lo, hi), op[2]
